@@ -41,6 +41,88 @@ def gen(tier, seed, pid):
     return res, pats, cases
 
 
+def value_pair_docs(tier, seed):
+    """positive documents of MC_ParserCases (every element with all its sub-elements) and, per parameter token, a twin that
+    differs in that token only: another value (different) or another notation of the value (same)"""
+    import re
+    res = vlib.tlc("MC_ParserCases", workers=8, coverage=False, timeout=900)
+    pos = [c for c in res.prints("CASE") if c["k"] == "pos" and c.get("ver") == 171]
+    rng = random.Random(seed * 97 + 5)
+    tokre = re.compile(r'"(?:[^"\\]|\\.|"")*"|/\*.*?\*/|//[^\n]*|[^\s"]+', re.S)
+    out = []
+    for c in pos:
+        text = pc.concretise(c)
+        body = text.index("/begin PROJECT")
+        for m in tokre.finditer(text, body):
+            t = m.group(0)
+            twins = []
+            if re.fullmatch(r"id_\d+", t):
+                twins.append((t + "x", False))
+            elif re.fullmatch(r'"s\d+"', t):
+                twins.append((t[:-1] + 'x"', False))
+                twins.append((t[:-1] + '\\""', False))      # an escaped quote at the end is part of the value
+            elif re.fullmatch(r"0x[0-9a-fA-F]+", t):
+                twins.append((hex(int(t, 16) + 1), False))
+                twins.append((str(int(t, 16)), True))
+                twins.append(("0X" + t[2:].upper(), True))
+            elif re.fullmatch(r"\d+", t):
+                twins.append((str(int(t) + 1), False))
+            elif re.fullmatch(r"\d+\.\d+", t):
+                twins.append((str(float(t) + 1.0), False))
+                twins.append((t + "0", True))
+                twins.append((("%.3e" % float(t)), float("%.3e" % float(t)) == float(t)))
+            if tier != "thorough" and twins:      # quick: one twin of another value for every token, a sample of the other twins
+                twins = [twins[0]] + [x for x in twins[1:] if rng.random() < 0.3]
+            for tw, same in twins:
+                out.append({"e": c["e"], "text": text, "text2": text[:m.start()] + tw + text[m.end():], "tok": t, "twin": tw, "same": same})
+    return out
+
+
+def value_pairs(binp, rep, pid, tier):
+    pairs = value_pair_docs(tier, vlib.seed())
+    inp = os.path.join(vlib.scratch(), f"pairs_{pid}.ndjson")
+    outp = os.path.join(vlib.scratch(), f"pairs_{pid}.out")
+    vlib.write_ndjson(inp, [{"id": i, "text": p["text"], "text2": p["text2"], "strict": True, "want": []} for i, p in enumerate(pairs)])
+    rc, lines, err = vlib.run_harness(binp, ["load-op", "--cases", inp, "--out", outp], timeout=3000)
+    if rc != 0:
+        vlib.tool_error(f"load-op (pairs) failed: {err[-300:]}")
+    with open(outp) as f:
+        results = [json.loads(l) for l in f if l.strip()]
+    events, idx, unloadable = [], [], 0
+    for i, (p, r) in enumerate(zip(pairs, results)):
+        pr = r.get("pair")
+        if not r.get("ok") or pr is None:
+            vlib.tool_error(f"positive document does not load: {r.get('e')}")
+        if not pr.get("loads"):
+            if "panic" in pr:
+                rep.violation(f"pair:panic:{p['e']}", f"loading panicked: {pr['panic']}", {"kind": "doc", "text": p["text2"], "strict": True})
+            unloadable += 1           # the changed value does not fit its field
+            continue
+        events.append({"pair": True, "sameValue": p["same"], "eq": bool(pr["eq"]), "eqRev": bool(pr["eq_rev"])})
+        idx.append(i)
+    if len(events) < 0.8 * len(pairs) or not any(e["sameValue"] for e in events) or not any(not e["sameValue"] for e in events):
+        vlib.tool_error(f"vacuity: {len(events)} of {len(pairs)} twin documents load")
+    pth = os.path.join(vlib.scratch(), f"pair_events_{pid}.ndjson")
+    vlib.write_ndjson(pth, events)
+    tr = vlib.tlc("Trace_Layout", cfg=f"Trace_Layout_{pid}", workers=1, dfs=True, coverage=False, env={"TRACE": pth}, timeout=1800, expect_violation=True)
+    if not tr.ok:
+        vlib.tool_error(f"Trace_Layout did not consume all pair events: {tr.errors[:3]}")
+    cur = []
+    for line in tr.raw_lines("<<"):
+        import re
+        m = re.match(r'<<"FAILED", "([^"]+)">>', line)
+        if m:
+            cur.append(m.group(1))
+            continue
+        m = re.match(r'<<"REJECT", (\d+)>>', line)
+        if m:
+            p = pairs[idx[int(m.group(1)) - 1]]
+            rep.violation(f"pair:{'+'.join(cur)}:{p['e']}", f"documents that differ in the token {p['tok']} / {p['twin']} ({'same' if p['same'] else 'another'} value) of {p['e']}: == says {events[int(m.group(1)) - 1]['eq']}",
+                          {"kind": "pair", "pair": p})
+            cur = []
+    return {"twin_documents": len(pairs), "judged": len(events), "same_value_twins": sum(1 for e in events if e["sameValue"]), "value_does_not_fit": unloadable}
+
+
 def run(pid, tier, selftest, assumptions):
     t0 = time.time()
     rep = vlib.Reporter(pid)
@@ -218,6 +300,7 @@ def run(pid, tier, selftest, assumptions):
             if not editcheck.selftest(pid):
                 vlib.tool_error("binding selftest of Trace_Edit failed")
             edit_cov["binding_mutation_rejected"] = True
+    pair_cov = value_pairs(binp, rep, pid, tier) if pid == "C01" else None
     fams = {}
     for m in meta:
         fams[m["pat"]["fam"] + "/" + m["pat"]["cmt"]] = fams.get(m["pat"]["fam"] + "/" + m["pat"]["cmt"], 0) + 1
@@ -240,6 +323,8 @@ def run(pid, tier, selftest, assumptions):
     }
     if binding:
         cov["binding_mutations_rejected"] = binding
+    if pair_cov:
+        cov["equality_on_twin_documents"] = pair_cov
     if edit_cov:
         cov["api_edits"] = edit_cov
         cov["traces_validated_against_impl"] += edit_cov["edits_judged"]
@@ -253,7 +338,18 @@ def replay(pid, path):
     rep = vlib.Reporter(pid)
     binp = vlib.build_harness()
     case = r["case"]
-    if case.get("kind") == "edit":
+    if case.get("kind") == "pair":
+        pr = case["pair"]
+        inp = os.path.join(vlib.scratch(), "pair_replay.ndjson")
+        outp = os.path.join(vlib.scratch(), "pair_replay.out")
+        vlib.write_ndjson(inp, [{"id": 0, "text": pr["text"], "text2": pr["text2"], "strict": True, "want": []}])
+        vlib.run_harness(binp, ["load-op", "--cases", inp, "--out", outp])
+        with open(outp) as f:
+            r = json.loads(f.readline())
+        x = r.get("pair", {})
+        if x.get("loads") and (bool(x["eq"]) != pr["same"] or x["eq"] != x["eq_rev"]):
+            rep.violation("pair:EqualityIsByValue", f"== says {x['eq']} for documents that differ in {pr['tok']} / {pr['twin']}", case)
+    elif case.get("kind") == "edit":
         import editcheck
         editcheck.replay_case(pid, case, rep, binp)
     elif case.get("kind") == "tlc-edit":
